@@ -477,7 +477,8 @@ theorem syncEndpoints_ok (env : Env) (henv : EnvOK env) (tls : Option TLSClientC
 theorem sync_ok (env : Env) (henv : EnvOK env) (known : List Known) (c : Cluster) (hv : valid env known c = true)
     (ci : ClusterInfo) (htls : tlsConfigFor env ci.restTLS = .ok ()) :
     ∃ ci', ci.sync env c = .ok ci' ∧ ci'.restTLS = ci.restTLS ∧ ci'.cluster = ci.cluster ∧
-      (ci.cluster = env.lower c.name → ci'.secureServing = c.secureServing) := by
+      (ci.cluster = env.lower c.name → ci'.secureServing = c.secureServing ∧
+        ∀ fl, upstreamLimiterSync ci.flowcontrol c.schemas = .ok fl → ci'.flowcontrol = fl) := by
   simp only [valid, usable, classes, Bool.and_eq_true, decide_eq_true_eq, List.all_eq_true] at hv
   obtain ⟨⟨⟨⟨⟨hm, ⟨⟨⟨⟨⟨⟨hsv1, hsv2⟩, hsv3⟩, hcl2⟩, hss⟩, hsch2⟩, hsch1⟩, hpolr⟩, hcl1⟩, hform⟩, hg⟩, hk⟩ := hv
   unfold ClusterInfo.sync
@@ -489,12 +490,13 @@ theorem sync_ok (env : Env) (henv : EnvOK env) (known : List Known) (c : Cluster
     have hssv := syncSecureServingConfig_ok env ci.secureServing c.secureServing hss
     obtain ⟨eps, heps⟩ := syncEndpoints_ok env henv ci.restTLS htls ci.endpoints c.servers hsv2
     simp only [hb, hfl, hssv, heps, bind, Except.bind, pure, Except.pure]
-    exact ⟨_, rfl, rfl, rfl, fun _ => rfl⟩
+    exact ⟨_, rfl, rfl, rfl, fun _ => ⟨rfl, fun fl' h' => by cases h'; rfl⟩⟩
 
 /-- `CreateClusterInfo` of a valid object succeeds -/
 theorem createClusterInfo_ok (env : Env) (henv : EnvOK env) (known : List Known) (c : Cluster) (hv : valid env known c = true)
     (remote : Bool) : ∃ ci, createClusterInfo env remote c = .ok ci ∧ tlsConfigFor env ci.restTLS = .ok () ∧
-      ci.cluster = env.lower c.name ∧ ci.secureServing = c.secureServing := by
+      ci.cluster = env.lower c.name ∧ ci.secureServing = c.secureServing ∧
+      ∀ fl, upstreamLimiterSync ⟨[], []⟩ c.schemas = .ok fl → ci.flowcontrol = fl := by
   have hv' := hv
   simp only [valid, usable, classes, Bool.and_eq_true, decide_eq_true_eq, List.all_eq_true] at hv'
   obtain ⟨⟨⟨⟨⟨hm, ⟨⟨⟨⟨⟨⟨hsv1, hsv2⟩, hsv3⟩, hcl2⟩, hss⟩, hsch2⟩, hsch1⟩, hpolr⟩, hcl1⟩, hform⟩, hg⟩, hk⟩ := hv'
@@ -504,11 +506,12 @@ theorem createClusterInfo_ok (env : Env) (henv : EnvOK env) (known : List Known)
     (newEmptyClusterInfo env c.name (if schemeOf c.servers = sHttps
       then some ⟨c.clientConfig.keyData, c.clientConfig.certData, c.clientConfig.caData, c.clientConfig.insecure⟩ else none) remote)
     (by simpa [newEmptyClusterInfo] using htls)
-  refine ⟨ci', ?_, ?_, ?_, ?_⟩
+  refine ⟨ci', ?_, ?_, ?_, ?_, ?_⟩
   · simp [createClusterInfo, hb, h1, bind, Except.bind]
   · rw [h2]; simpa [newEmptyClusterInfo] using htls
   · rw [h3]; rfl
-  · exact h4 rfl
+  · exact (h4 rfl).1
+  · exact (h4 rfl).2
 
 /-! ### the controller -/
 
@@ -556,7 +559,7 @@ theorem syncUpstreamCluster_ok (env : Env) (henv : EnvOK env) (known : List Know
   have hk : noConflict env known c = true := by
     simp only [valid, Bool.and_eq_true] at hv; exact hv.2
   have hnames := noConflict_manager env henv known c m hk hm
-  obtain ⟨ci, hci, _, hcl, hss⟩ := createClusterInfo_ok env henv known c hv remote
+  obtain ⟨ci, hci, _, hcl, hss, _⟩ := createClusterInfo_ok env henv known c hv remote
   have hc1 := checkServerNameConflict_false m (env.lower c.name) (serverNamesOf env c.name c.secureServing) hnames
   unfold syncUpstreamCluster
   simp only [hnew, hc1, hci, Bool.false_eq_true, if_false]
@@ -648,5 +651,648 @@ theorem upstreamConditionHandler_ok (u : Upstream) (c : Cluster) : ∃ u', upstr
     exact hu'
   · rw [hst]; exact hmap
   · rw [hin]
+
+/-! ### limiter sizes after a first application -/
+
+theorem newFlowControl_expected (s : Schema) (h : schemaOK s = true) (ht : wellTyped s = true) :
+    ∃ fc, newFlowControl s = .ok fc ∧ expectedLocal s = some fc := by
+  obtain ⟨name, strategy, exempt, m, tb, gm, gtb⟩ := s
+  cases exempt <;> cases m <;> cases tb <;> cases gm <;> cases gtb <;>
+    simp [schemaOK, shapeOf, Shape.inRange] at h <;>
+    simp [wellTyped, isInt32] at ht <;>
+    simp [newFlowControl, guessFlowControlSchemaType, deref, bind, Except.bind, pure, Except.pure, expectedLocal, shapeOf] <;>
+    (try (refine ⟨?_, ?_⟩)) <;> (symm; apply toU32_of_nonneg <;> omega)
+
+theorem localWrapperSync_fresh (s : Schema) (hn : s.name ≠ []) (h : schemaOK s = true) (ht : wellTyped s = true) :
+    localWrapperSync newFlowControlCache s = .ok ⟨expectedLocal s, s, none⟩ := by
+  obtain ⟨fc, hfc, he⟩ := newFlowControl_expected s h ht
+  have hne : s ≠ emptySchema := by
+    intro heq; apply hn; rw [heq]; rfl
+  simp [localWrapperSync, newFlowControlCache, hne, hfc, he, bind, Except.bind, pure, Except.pure]
+
+theorem alGet_map_entryOf_none (l : List Schema) (x : Str) (h : x ∉ l.map (·.name)) : alGet (l.map entryOf) x = none := by
+  induction l with
+  | nil => rfl
+  | cons a l ih =>
+    simp at h
+    have hne : ¬ (a.name = x) := fun e => h.1 e.symm
+    simp [alGet, entryOf, hne]
+    exact ih (by simpa using h.2)
+
+theorem alSet_of_none {β : Type} (l : List (Str × β)) (x : Str) (v : β) (h : alGet l x = none) : alSet l x v = l ++ [(x, v)] := by
+  induction l with
+  | nil => rfl
+  | cons a l ih =>
+    obtain ⟨k, w⟩ := a
+    by_cases hk : k = x
+    · simp [alGet, hk] at h
+    · simp [alGet, hk] at h
+      simp [alSet, hk, ih h]
+
+theorem namesOK_append_cons (pre : List Schema) (s : Schema) (rest : List Schema) (h : namesOK (pre ++ s :: rest) = true) :
+    s.name ≠ [] ∧ s.name ∉ pre.map (·.name) := by
+  induction pre with
+  | nil => simp [namesOK] at h; exact ⟨h.1.1, by simp⟩
+  | cons a pre ih =>
+    simp [namesOK] at h
+    obtain ⟨⟨_, h2⟩, h3⟩ := h
+    have := ih (by simpa using h3)
+    refine ⟨this.1, ?_⟩
+    simp
+    refine ⟨?_, by simpa using this.2⟩
+    intro heq
+    exact h2.2.1 heq.symm
+
+theorem foldSync_fresh (rest : List Schema) : ∀ (pre : List Schema), namesOK (pre ++ rest) = true →
+    (∀ s ∈ rest, schemaOK s = true ∧ wellTyped s = true) →
+    foldM' syncOneSchema (pre.map entryOf) rest = .ok ((pre ++ rest).map entryOf) := by
+  induction rest with
+  | nil => intro pre _ _; simp [foldM', pure, Except.pure]
+  | cons s rest ih =>
+    intro pre hn hs
+    obtain ⟨h1, h2⟩ := namesOK_append_cons pre s rest hn
+    have hg := alGet_map_entryOf_none pre s.name h2
+    have hsync := localWrapperSync_fresh s h1 (hs s (by simp)).1 (hs s (by simp)).2
+    have step : syncOneSchema (pre.map entryOf) s = .ok ((pre ++ [s]).map entryOf) := by
+      simp [syncOneSchema, loadOrNew, hg, hsync, bind, Except.bind, pure, Except.pure, alSet_of_none _ _ _ hg, entryOf]
+    simp only [foldM', step, bind, Except.bind]
+    have := ih (pre ++ [s]) (by simpa using hn) (fun t ht => hs t (by simp [ht]))
+    simpa using this
+
+/-- a gateway that applies a valid object to a new cluster ends up with exactly one limiter per schema, of the
+    configured type and size (`uint32` conversions lose nothing), and no remote limiter -/
+theorem upstreamLimiterSync_fresh (schemas : List Schema) (hn : namesOK schemas = true)
+    (hs : ∀ s ∈ schemas, schemaOK s = true ∧ wellTyped s = true) :
+    upstreamLimiterSync ⟨[], []⟩ schemas = .ok ⟨schemas.map entryOf, schemas⟩ := by
+  unfold upstreamLimiterSync
+  by_cases he : ([] : List Schema) = schemas
+  · subst he; simp [pure, Except.pure]
+  · have := foldSync_fresh schemas [] (by simpa using hn) hs
+    simp at this
+    simp [he, this, bind, Except.bind, pure, Except.pure]
+
+theorem createClusterInfo_sizes (env : Env) (henv : EnvOK env) (known : List Known) (c : Cluster) (hv : valid env known c = true)
+    (ht : ∀ s ∈ c.schemas, wellTyped s = true) (remote : Bool) :
+    ∃ ci, createClusterInfo env remote c = .ok ci ∧ ci.flowcontrol.flowControls = c.schemas.map entryOf := by
+  obtain ⟨ci, hci, _, _, _, hfl⟩ := createClusterInfo_ok env henv known c hv remote
+  have hv' := hv
+  simp only [valid, usable, classes, Bool.and_eq_true, decide_eq_true_eq, List.all_eq_true] at hv'
+  have hn : namesOK c.schemas = true := hv'.1.1.1.1.2.1.2
+  have hs : ∀ s ∈ c.schemas, schemaOK s = true := hv'.1.1.1.1.2.1.1.2
+  have := hfl _ (upstreamLimiterSync_fresh c.schemas hn (fun s h => ⟨hs s h, ht s h⟩))
+  exact ⟨ci, hci, by rw [this]⟩
+
+/-! ### the reconcile period against the limiter server -/
+
+local notation "stype" => getFlowControlTypeFromLimitItem
+
+/-- the detail of the limiter server's upstream item for a schema (`toFlowControlLimit`) -/
+def detailOf (s : Schema) : Detail :=
+  ⟨s.globalMaxRequestsInflight, if s.globalMaxRequestsInflight.isSome then none else s.globalTokenBucket⟩
+
+def itemOf (s : Schema) : Item := ⟨s.name, [], detailOf s⟩
+
+/-- the kind of global limit a schema configures -/
+def gtype (s : Schema) : FCType := stype (detailOf s)
+
+theorem stype_raw (s : Schema) : stype ⟨s.globalMaxRequestsInflight, s.globalTokenBucket⟩ = gtype s := by
+  obtain ⟨name, strategy, exempt, m, tb, gm, gtb⟩ := s
+  cases gm <;> cases gtb <;> simp [gtype, detailOf, getFlowControlTypeFromLimitItem]
+
+theorem gtype_of_global (s : Schema) (h : schemaOK s = true) (hg : hasGlobal s = true) :
+    gtype s = guessFlowControlSchemaType s ∧ (gtype s = .maxRequestsInflight ∨ gtype s = .tokenBucket) := by
+  obtain ⟨name, strategy, exempt, m, tb, gm, gtb⟩ := s
+  cases exempt <;> cases m <;> cases tb <;> cases gm <;> cases gtb <;>
+    simp [schemaOK, shapeOf] at h <;> simp [hasGlobal] at hg <;>
+    simp [gtype, detailOf, getFlowControlTypeFromLimitItem, guessFlowControlSchemaType]
+
+theorem enableGlobal_hasGlobal (s : Schema) (h : enableGlobalFlowControl s = true) : hasGlobal s = true := by
+  simp only [enableGlobalFlowControl, Bool.and_eq_true] at h
+  exact h.2
+
+theorem stype_max (d : Detail) : stype d = .maxRequestsInflight ↔ d.maxRequestsInflight.isSome = true := by
+  obtain ⟨m, t⟩ := d
+  cases m <;> cases t <;> simp [getFlowControlTypeFromLimitItem]
+
+theorem stype_tb (d : Detail) : stype d = .tokenBucket ↔ (d.maxRequestsInflight = none ∧ d.tokenBucket.isSome = true) := by
+  obtain ⟨m, t⟩ := d
+  cases m <;> cases t <;> simp [getFlowControlTypeFromLimitItem]
+
+theorem stype_bound (lc : Schema) (it : Item) : stype (boundByGlobalLimit lc it).detail = stype it.detail := by
+  obtain ⟨n, st, ⟨m, t⟩⟩ := it
+  cases m <;> cases t <;> simp [boundByGlobalLimit, getFlowControlTypeFromLimitItem]
+
+theorem resize_typ (f : FlowCtl) (n b : Nat) : (f.resize n b).typ = f.typ := by
+  unfold FlowCtl.resize; split <;> rfl
+
+/-- building the remote limiter from an item that carries a limit succeeds, whatever the strategy -/
+theorem remoteNew_ok (it : Item) (T : FCType) (hT : T = .maxRequestsInflight ∨ T = .tokenBucket) (h : stype it.detail = T) :
+    ∃ fc, remoteNewFlowControl it = .ok fc ∧ fc.typ = T := by
+  obtain ⟨n, st, ⟨m, t⟩⟩ := it
+  rcases hT with rfl | rfl
+  · have hm := (stype_max _).mp h
+    cases m with
+    | none => simp at hm
+    | some mv =>
+      by_cases hs : st ≠ sGlobalCountLimit <;>
+        simp [remoteNewFlowControl, toFlowControlSchema, newFlowControl, guessFlowControlSchemaType, emptySchema, deref,
+          bind, Except.bind, pure, Except.pure, hs, resize_typ]
+  · have hm := (stype_tb _).mp h
+    simp at hm
+    obtain ⟨rfl, ht⟩ := hm
+    cases t with
+    | none => simp at ht
+    | some tv =>
+      by_cases hs : st ≠ sGlobalCountLimit <;>
+        simp [remoteNewFlowControl, toFlowControlSchema, newFlowControl, guessFlowControlSchemaType, emptySchema, deref,
+          bind, Except.bind, pure, Except.pure, hs, resize_typ]
+
+/-- a remote wrapper is consistent with the local configuration it belongs to -/
+def RemoteOK (lc : Schema) (r : RemoteWrapper) : Prop :=
+  ∃ fc, r.fc = some fc ∧ fc.typ = stype r.remoteConfig.detail ∧ stype r.remoteConfig.detail = gtype lc
+
+theorem remoteWrapperSync_ok (lc : Schema) (hT : gtype lc = .maxRequestsInflight ∨ gtype lc = .tokenBucket)
+    (r : RemoteWrapper) (hr : RemoteOK lc r ∨ r = ⟨none, emptyItem, emptyItem⟩)
+    (it : Item) (hit : stype it.detail = gtype lc) :
+    ∃ r', remoteWrapperSync lc r it = .ok r' ∧ RemoteOK lc r' := by
+  have happ : stype (boundByGlobalLimit lc it).detail = gtype lc := by rw [stype_bound]; exact hit
+  obtain ⟨nfc, hnew, hntyp⟩ := remoteNew_ok (boundByGlobalLimit lc it) (gtype lc) hT happ
+  have hnewOK : RemoteOK lc ⟨some nfc, it, boundByGlobalLimit lc it⟩ := ⟨nfc, rfl, by simp [hntyp, hit], hit⟩
+  unfold remoteWrapperSync
+  simp only []
+  split
+  · -- nothing changed
+    rename_i heq
+    rcases hr with hr | hr
+    · exact ⟨r, rfl, hr⟩
+    · exfalso
+      simp only [Bool.and_eq_true, decide_eq_true_eq] at heq
+      rw [hr] at heq
+      have : stype it.detail = .unknown := by rw [heq.1]; rfl
+      rw [hit] at this
+      rcases hT with h | h <;> simp [h] at this
+  · cases hfc : r.fc with
+    | none =>
+      simp only [hnew, bind, Except.bind, pure, Except.pure]
+      exact ⟨_, rfl, hnewOK⟩
+    | some cur =>
+      simp only []
+      split
+      · simp only [hnew, bind, Except.bind, pure, Except.pure]
+        exact ⟨_, rfl, hnewOK⟩
+      · rename_i hsame
+        simp only [Bool.or_eq_true, decide_eq_true_eq, not_or, Decidable.not_not] at hsame
+        split
+        · rename_i hb
+          simp only [Bool.and_eq_true, decide_eq_true_eq] at hb
+          have hs : (boundByGlobalLimit lc it).detail.maxRequestsInflight.isSome = true :=
+            (stype_max _).mp (by rw [stype_bound]; exact (stype_max _).mpr hb.1)
+          cases hm : (boundByGlobalLimit lc it).detail.maxRequestsInflight with
+          | none => simp [hm] at hs
+          | some mv =>
+            simp only [deref, bind, Except.bind, pure, Except.pure]
+            refine ⟨_, rfl, _, rfl, ?_, hit⟩
+            simp only [resize_typ]
+            rw [hb.2]; exact ((stype_max _).mpr hb.1).symm
+        · split
+          · rename_i hnb hb
+            simp only [Bool.and_eq_true, decide_eq_true_eq] at hb
+            have hty : stype it.detail = .tokenBucket := hsame.1.symm.trans hb.2
+            have hs := (stype_tb _).mp (by rw [stype_bound]; exact hty : stype (boundByGlobalLimit lc it).detail = .tokenBucket)
+            cases hm : (boundByGlobalLimit lc it).detail.tokenBucket with
+            | none => simp [hm] at hs
+            | some tv =>
+              simp only [deref, bind, Except.bind, pure, Except.pure]
+              refine ⟨_, rfl, _, rfl, ?_, hit⟩
+              simp only [resize_typ]
+              rw [hb.2]; exact hty.symm
+          · simp only [hnew, bind, Except.bind, pure, Except.pure]
+            exact ⟨_, rfl, hnewOK⟩
+
+/-- a cache entry of the gateway is consistent with the object `schemas` come from -/
+structure EntryOK (schemas : List Schema) (kv : Str × FlowControlCache) : Prop where
+  mem : kv.2.localConfig ∈ schemas
+  key : kv.1 = kv.2.localConfig.name
+  fc : ∃ fc, kv.2.fc = some fc ∧ fc.typ = guessFlowControlSchemaType kv.2.localConfig
+  remote : ∀ r, kv.2.remote = some r → enableGlobalFlowControl kv.2.localConfig = true ∧ RemoteOK kv.2.localConfig r
+
+theorem cacheRemoteSync_ok (schemas : List Schema) (hs : ∀ s ∈ schemas, schemaOK s = true)
+    (kv : Str × FlowControlCache) (hkv : EntryOK schemas kv) (hen : enableGlobalFlowControl kv.2.localConfig = true)
+    (it : Item) (hit : stype it.detail = gtype kv.2.localConfig) :
+    ∃ w', cacheRemoteSync kv.2 it = .ok w' ∧ EntryOK schemas (kv.1, w') := by
+  have hT := (gtype_of_global _ (hs _ hkv.mem) (enableGlobal_hasGlobal _ hen)).2
+  unfold cacheRemoteSync
+  cases hrem : kv.2.remote with
+  | none =>
+    obtain ⟨r', hr', hok⟩ := remoteWrapperSync_ok kv.2.localConfig hT ⟨none, emptyItem, emptyItem⟩ (Or.inr rfl) it hit
+    simp only [hr', bind, Except.bind, pure, Except.pure]
+    exact ⟨_, rfl, ⟨hkv.mem, hkv.key, hkv.fc, fun r h => by cases h; exact ⟨hen, hok⟩⟩⟩
+  | some r =>
+    obtain ⟨r', hr', hok⟩ := remoteWrapperSync_ok kv.2.localConfig hT r (Or.inl (hkv.remote r hrem).2) it hit
+    simp only [hr', bind, Except.bind, pure, Except.pure]
+    exact ⟨_, rfl, ⟨hkv.mem, hkv.key, hkv.fc, fun r h => by cases h; exact ⟨hen, hok⟩⟩⟩
+
+/-- `updateGlobalCuntFlowControls`, one entry. This is where the guard `Gen.C16.countPathGuarded` matters: without
+    it a `globalCount` schema without global limit reaches `newFlowControlCounter` with an empty item. -/
+theorem updateGlobalCountOne_ok (schemas : List Schema) (hs : ∀ s ∈ schemas, schemaOK s = true)
+    (kv : Str × FlowControlCache) (hkv : EntryOK schemas kv) :
+    ∃ kv', updateGlobalCountOne kv = .ok kv' ∧ EntryOK schemas kv' := by
+  unfold updateGlobalCountOne
+  simp only []
+  split
+  · exact ⟨kv, rfl, hkv⟩
+  · split
+    · exact ⟨kv, rfl, hkv⟩
+    · rename_i hg
+      have hen : enableGlobalFlowControl kv.2.localConfig = true := by
+        simpa [Gen.C16.countPathGuarded] using hg
+      obtain ⟨w', hw', hok⟩ := cacheRemoteSync_ok schemas hs kv hkv hen
+        ⟨kv.1, kv.2.localConfig.strategy, ⟨kv.2.localConfig.globalMaxRequestsInflight, kv.2.localConfig.globalTokenBucket⟩⟩
+        (stype_raw _)
+      simp only [hw', bind, Except.bind, pure, Except.pure]
+      exact ⟨_, rfl, hok⟩
+
+/-- `buildLimitConditions`, one entry: what the gateway reports is of the kind of the schema's global limit -/
+theorem limitConditionOne_ok (schemas : List Schema) (hs : ∀ s ∈ schemas, schemaOK s = true) (used : Str → Int)
+    (kv : Str × FlowControlCache) (hkv : EntryOK schemas kv) :
+    ∃ r, limitConditionOne used kv = .ok r ∧ ∀ it st, r = some (it, st) →
+      it.name = kv.1 ∧ st.name = kv.1 ∧ (stype it.detail = .unknown ∨ stype it.detail = gtype kv.2.localConfig) ∧
+      stype st.detail = gtype kv.2.localConfig := by
+  unfold limitConditionOne
+  simp only []
+  split
+  · exact ⟨none, rfl, by intro _ _ h; cases h⟩
+  · split
+    · exact ⟨none, rfl, by intro _ _ h; cases h⟩
+    · rename_i _ hen
+      have hen : enableGlobalFlowControl kv.2.localConfig = true := by simpa using hen
+      obtain ⟨hgt, hT⟩ := gtype_of_global _ (hs _ hkv.mem) (enableGlobal_hasGlobal _ hen)
+      obtain ⟨lfc, hlfc, hltyp⟩ := hkv.fc
+      cases hrem : kv.2.remote with
+      | none =>
+        simp only [hlfc, deref, bind, Except.bind, pure, Except.pure, hltyp, ← hgt]
+        rcases hT with h | h
+        · simp only [h]
+          refine ⟨_, rfl, ?_⟩
+          intro it st heq; cases heq
+          exact ⟨rfl, rfl, Or.inl rfl, by simp [getFlowControlTypeFromLimitItem]⟩
+        · simp only [h]
+          refine ⟨_, rfl, ?_⟩
+          intro it st heq; cases heq
+          exact ⟨rfl, rfl, Or.inl rfl, by simp [getFlowControlTypeFromLimitItem]⟩
+      | some r =>
+        obtain ⟨_, rfc, hrfc, hrtyp, hrg⟩ := hkv.remote r hrem
+        simp only [hlfc, hrfc, deref, bind, Except.bind, pure, Except.pure, hrtyp, hrg]
+        rcases hT with h | h
+        · simp only [h]
+          have hm := (stype_max _).mp (hrg.trans h)
+          cases hd : r.remoteConfig.detail.maxRequestsInflight with
+          | none => simp [hd] at hm
+          | some mv =>
+            refine ⟨_, rfl, ?_⟩
+            intro it st heq; cases heq
+            exact ⟨rfl, rfl, Or.inr (hrg.trans h), by simp [getFlowControlTypeFromLimitItem]⟩
+        · simp only [h]
+          have hm := (stype_tb _).mp (hrg.trans h)
+          cases hd : r.remoteConfig.detail.tokenBucket with
+          | none => simp [hd] at hm
+          | some tv =>
+            refine ⟨_, rfl, ?_⟩
+            intro it st heq; cases heq
+            exact ⟨rfl, rfl, Or.inr (hrg.trans h), by simp [getFlowControlTypeFromLimitItem]⟩
+
+theorem lookupLast_itemOf (schemas : List Schema) (n : Str) (cfg : Item)
+    (h : lookupLast (·.name) (schemas.map itemOf) n = some cfg) : ∃ s ∈ schemas, s.name = n ∧ cfg = itemOf s := by
+  unfold lookupLast at h
+  have h1 := List.find?_some h
+  have h2 := List.mem_of_find?_eq_some h
+  simp only [List.mem_reverse, List.mem_map] at h2
+  obtain ⟨s, hs, rfl⟩ := h2
+  exact ⟨s, hs, of_decide_eq_true h1, rfl⟩
+
+theorem namesOK_unique (l : List Schema) (h : namesOK l = true) (a b : Schema) (ha : a ∈ l) (hb : b ∈ l)
+    (hn : a.name = b.name) : a = b := by
+  induction l with
+  | nil => cases ha
+  | cons x l ih =>
+    simp only [namesOK, Bool.and_eq_true, decide_eq_true_eq, Bool.not_eq_true', List.contains_eq_mem,
+      decide_eq_false_iff_not, List.mem_map, not_exists, not_and] at h
+    simp only [List.mem_cons] at ha hb
+    rcases ha with rfl | ha <;> rcases hb with rfl | hb
+    · rfl
+    · exact absurd hn.symm (h.1.2 b hb)
+    · exact absurd hn (h.1.2 a ha)
+    · exact ih h.2 ha hb
+
+/-- what the gateway may send about a flow control: nothing yet, or a limit of the schema's kind -/
+def ItemOK (schemas : List Schema) (it : Item) : Prop :=
+  ∀ s ∈ schemas, s.name = it.name → stype it.detail = .unknown ∨ stype it.detail = gtype s
+
+/-- what the server answers: a limit of the schema's kind -/
+def AnswerOK (schemas : List Schema) (it : Item) : Prop :=
+  ∀ s ∈ schemas, s.name = it.name → stype it.detail = gtype s
+
+theorem calculateNextQuota_ok (quota : Str → Int × Int) (s0 : Schema) (it : Item)
+    (hty : stype it.detail = .unknown ∨ stype it.detail = gtype s0) :
+    ∃ nc, calculateNextQuota quota (itemOf s0) it = .ok nc ∧ nc.name = it.name ∧ stype nc.detail = gtype s0 := by
+  unfold calculateNextQuota
+  by_cases hcount : it.strategy = sGlobalCountLimit
+  · simp only [hcount, if_true, pure, Except.pure]
+    exact ⟨_, rfl, rfl, rfl⟩
+  · simp only [hcount, if_false]
+    have hup : getFlowControlTypeFromLimitItem (itemOf s0).detail = gtype s0 := rfl
+    rw [hup]
+    rcases hg : gtype s0 with _ | _ | _ | _
+    · simp only [pure, Except.pure]
+      refine ⟨_, rfl, rfl, ?_⟩
+      rcases hty with h | h
+      · exact h
+      · rw [h, hg]
+    · simp only [pure, Except.pure]
+      refine ⟨_, rfl, rfl, ?_⟩
+      rcases hty with h | h
+      · exfalso
+        have : gtype s0 ≠ .exempt := by
+          unfold gtype getFlowControlTypeFromLimitItem; split <;> (try split) <;> simp
+        exact this hg
+      · rw [h, hg]
+    · simp only [pure, Except.pure]
+      exact ⟨_, rfl, rfl, by simp [getFlowControlTypeFromLimitItem]⟩
+    · have hm := (stype_tb _).mp hg
+      cases hd : (detailOf s0).tokenBucket with
+      | none => simp [hd] at hm
+      | some tv =>
+        simp only [itemOf, hd, deref, bind, Except.bind, pure, Except.pure]
+        refine ⟨_, rfl, rfl, ?_⟩
+        have hnomax : it.detail.maxRequestsInflight = none := by
+          rcases hty with h | h
+          · cases hx : it.detail.maxRequestsInflight with
+            | none => rfl
+            | some _ => have := (stype_max it.detail).mpr (by simp [hx]); rw [h] at this; cases this
+          · rw [hg] at h; exact ((stype_tb _).mp h).1
+        simp [getFlowControlTypeFromLimitItem, hnomax]
+
+theorem updateOneItem_ok (schemas : List Schema) (hn : namesOK schemas = true) (quota : Str → Int × Int)
+    (it : Item) (hit : ItemOK schemas it) :
+    ∃ r, updateOneItem quota (schemas.map itemOf) it = .ok r ∧ ∀ nc, r = some nc → AnswerOK schemas nc := by
+  unfold updateOneItem
+  cases hl : lookupLast (·.name) (schemas.map itemOf) it.name with
+  | none => exact ⟨none, rfl, by intro _ h; cases h⟩
+  | some up =>
+    obtain ⟨s0, hs0, hname, rfl⟩ := lookupLast_itemOf schemas it.name up hl
+    have hty := hit s0 hs0 hname
+    have hup : getFlowControlTypeFromLimitItem (itemOf s0).detail = gtype s0 := rfl
+    simp only [hup]
+    have hcheck : ¬ (getFlowControlTypeFromLimitItem it.detail ≠ .unknown ∧ getFlowControlTypeFromLimitItem it.detail ≠ gtype s0) := by
+      rcases hty with h | h <;> simp [h]
+    obtain ⟨nc, hnc, hnn, hnt⟩ := calculateNextQuota_ok quota s0 it hty
+    have answer : AnswerOK schemas nc := by
+      intro s hs hsn
+      have : s = s0 := namesOK_unique schemas hn s s0 hs hs0 (by rw [hsn, hnn, hname])
+      rw [this]; exact hnt
+    simp only [Bool.and_eq_true, decide_eq_true_eq, hcheck, if_false, hnc, bind, Except.bind, pure, Except.pure]
+    rcases hit' : getFlowControlTypeFromLimitItem it.detail with _ | _ | _ | _
+    · exact ⟨_, rfl, by intro x hx; cases hx; exact answer⟩
+    · exact ⟨_, rfl, by intro x hx; cases hx; exact answer⟩
+    · have : stype nc.detail = .maxRequestsInflight := by
+        rcases hty with h | h
+        · rw [hit'] at h; cases h
+        · rw [hnt, ← h, hit']
+      have hm := (stype_max _).mp this
+      cases hd : nc.detail.maxRequestsInflight with
+      | none => simp [hd] at hm
+      | some mv =>
+        simp only [deref, pure, Except.pure]
+        exact ⟨_, rfl, by intro x hx; cases hx; exact answer⟩
+    · have : stype nc.detail = .tokenBucket := by
+        rcases hty with h | h
+        · rw [hit'] at h; cases h
+        · rw [hnt, ← h, hit']
+      have hm := (stype_tb _).mp this
+      cases hd : nc.detail.tokenBucket with
+      | none => simp [hd] at hm
+      | some tv =>
+        simp only [deref, pure, Except.pure]
+        exact ⟨_, rfl, by intro x hx; cases hx; exact answer⟩
+
+theorem mapM'_all {α β : Type} (f : α → M β) (Q : β → Prop) (l : List α) (h : ∀ a ∈ l, ∃ b, f a = .ok b ∧ Q b) :
+    ∃ bs, mapM' f l = .ok bs ∧ ∀ b ∈ bs, Q b := by
+  induction l with
+  | nil => exact ⟨[], rfl, by simp⟩
+  | cons a l ih =>
+    obtain ⟨b, hb, hq⟩ := h a (by simp)
+    obtain ⟨bs, hbs, hall⟩ := ih (fun x hx => h x (by simp [hx]))
+    refine ⟨b :: bs, by simp [mapM', hb, hbs, bind, Except.bind, pure, Except.pure], ?_⟩
+    intro x hx
+    simp at hx
+    rcases hx with rfl | hx
+    · exact hq
+    · exact hall x hx
+
+theorem alGet_mem {β : Type} (l : List (Str × β)) (k : Str) (v : β) (h : alGet l k = some v) : (k, v) ∈ l := by
+  induction l with
+  | nil => cases h
+  | cons a l ih =>
+    obtain ⟨k', w⟩ := a
+    by_cases hk : k' = k
+    · simp [alGet, hk] at h; simp [hk, h]
+    · simp [alGet, hk] at h; simp [ih h]
+
+theorem mem_alSet {β : Type} (l : List (Str × β)) (k : Str) (v : β) (x : Str × β) (h : x ∈ alSet l k v) :
+    x ∈ l ∨ x = (k, v) := by
+  induction l with
+  | nil => simp [alSet] at h; exact Or.inr h
+  | cons a l ih =>
+    obtain ⟨k', w⟩ := a
+    by_cases hk : k' = k
+    · simp [alSet, hk] at h
+      rcases h with h | h
+      · exact Or.inr h
+      · exact Or.inl (by simp [h])
+    · simp [alSet, hk] at h
+      rcases h with h | h
+      · exact Or.inl (by simp [h])
+      · rcases ih h with h' | h'
+        · exact Or.inl (by simp [h'])
+        · exact Or.inr h'
+
+/-- what an instance reports: usage of the kind of the schema's global limit -/
+def StatusOK (schemas : List Schema) (st : Status) : Prop :=
+  ∀ s ∈ schemas, s.name = st.name → stype st.detail = .unknown ∨ stype st.detail = gtype s
+
+theorem levelOfStatus_ok (schemas : List Schema) (st : Status) (h : StatusOK schemas st) :
+    levelOfStatus (schemas.map itemOf) st = .ok () := by
+  unfold levelOfStatus
+  cases hl : lookupLast (·.name) (schemas.map itemOf) st.name with
+  | none => rfl
+  | some cfg =>
+    obtain ⟨s0, hs0, hname, rfl⟩ := lookupLast_itemOf schemas st.name cfg hl
+    have hty := h s0 hs0 hname
+    simp only []
+    split
+    · rename_i hm
+      have h1 := (stype_max _).mpr hm
+      have h2 : gtype s0 = .maxRequestsInflight := by
+        rcases hty with h | h
+        · rw [h1] at h; cases h
+        · rw [← h, h1]
+      have h3 := (stype_max _).mp h2
+      cases hd : (detailOf s0).maxRequestsInflight with
+      | none => simp [hd] at h3
+      | some mv => simp [itemOf, hd, deref, bind, Except.bind, pure, Except.pure]
+    · split
+      · rename_i hnm ht
+        have hnone : st.detail.maxRequestsInflight = none := by
+          cases hx : st.detail.maxRequestsInflight with
+          | none => rfl
+          | some _ => simp [hx] at hnm
+        have h1 := (stype_tb _).mpr ⟨hnone, ht⟩
+        have h2 : gtype s0 = .tokenBucket := by
+          rcases hty with h | h
+          · rw [h1] at h; cases h
+          · rw [← h, h1]
+        have h3 := (stype_tb _).mp h2
+        cases hd : (detailOf s0).tokenBucket with
+        | none => simp [hd] at h3
+        | some tv => simp [itemOf, hd, deref, bind, Except.bind, pure, Except.pure]
+      · rfl
+
+/-- the limiter server's state for the upstream is the one its handler derived from the object -/
+structure UpOK (schemas : List Schema) (u : Upstream) : Prop where
+  items : u.state.items = schemas.map itemOf
+  inst : ∀ kv ∈ u.instances, ∀ st ∈ kv.2.statuses, StatusOK schemas st
+
+theorem updateRateLimitConditionStatus_ok (schemas : List Schema) (hn : namesOK schemas = true) (quota : Str → Int × Int)
+    (u : Upstream) (hu : UpOK schemas u) (inst : Str) (cond : Condition)
+    (hi : ∀ it ∈ cond.items, ItemOK schemas it) (hst : ∀ st ∈ cond.statuses, StatusOK schemas st) :
+    ∃ r, updateRateLimitConditionStatus quota true u inst cond = .ok r ∧
+      (∀ it ∈ r.1.items, AnswerOK schemas it) ∧ UpOK schemas r.2 := by
+  unfold updateRateLimitConditionStatus
+  simp only [Bool.not_true, Bool.false_eq_true, if_false, hu.items]
+  obtain ⟨l, hl, hall⟩ := mapM'_all (updateOneItem quota (schemas.map itemOf))
+    (fun r => ∀ nc, r = some nc → AnswerOK schemas nc) cond.items
+    (fun it hit => updateOneItem_ok schemas hn quota it (hi it hit))
+  have hinst : ∀ kv ∈ alSet u.instances inst ⟨l.filterMap id, cond.statuses⟩, ∀ st ∈ kv.2.statuses, StatusOK schemas st := by
+    intro kv hkv st hs
+    rcases mem_alSet _ _ _ _ hkv with h | h
+    · exact hu.inst kv h st hs
+    · rw [h] at hs; exact hst st hs
+  obtain ⟨lv, hlv, _⟩ := mapM'_ok
+    (fun (kv : Str × Condition) => mapM' (levelOfStatus (schemas.map itemOf)) kv.2.statuses)
+    (alSet u.instances inst ⟨l.filterMap id, cond.statuses⟩)
+    (fun kv hkv => by
+      obtain ⟨bs, hbs, _⟩ := mapM'_ok (levelOfStatus (schemas.map itemOf)) kv.2.statuses
+        (fun st hs => ⟨(), levelOfStatus_ok schemas st (hinst kv hkv st hs)⟩)
+      exact ⟨bs, hbs⟩)
+  simp only [hl, hlv, bind, Except.bind, pure, Except.pure]
+  refine ⟨_, rfl, ?_, ⟨hu.items, hinst⟩⟩
+  intro it hit
+  simp only [List.mem_filterMap, id] at hit
+  obtain ⟨r, hr, rfl⟩ := hit
+  exact hall (some it) hr it rfl
+
+theorem updateFlowControlsOne_ok (schemas : List Schema) (_hn : namesOK schemas = true) (hs : ∀ s ∈ schemas, schemaOK s = true)
+    (fcs : List (Str × FlowControlCache)) (hall : ∀ kv ∈ fcs, EntryOK schemas kv) (config : Item) (hc : AnswerOK schemas config) :
+    ∃ fcs', updateFlowControlsOne fcs config = .ok fcs' ∧ ∀ kv ∈ fcs', EntryOK schemas kv := by
+  unfold updateFlowControlsOne
+  cases hg : alGet fcs config.name with
+  | none => exact ⟨fcs, rfl, hall⟩
+  | some fcCache =>
+    simp only []
+    have hkv := hall _ (alGet_mem _ _ _ hg)
+    split
+    · exact ⟨fcs, rfl, hall⟩
+    · rename_i hen
+      have hen : enableGlobalFlowControl fcCache.localConfig = true := by simpa using hen
+      obtain ⟨w', hw', hok⟩ := cacheRemoteSync_ok schemas hs (config.name, fcCache) hkv hen config
+        (hc _ hkv.mem hkv.key.symm)
+      simp only [hw', bind, Except.bind, pure, Except.pure]
+      refine ⟨_, rfl, ?_⟩
+      intro kv hkv'
+      rcases mem_alSet _ _ _ _ hkv' with h | h
+      · exact hall kv h
+      · rw [h]; exact hok
+
+/-- one reconcile period keeps gateway and limiter server consistent with the object, and does not fail -/
+theorem reconcileOnce_ok (schemas : List Schema) (hn : namesOK schemas = true) (hs : ∀ s ∈ schemas, schemaOK s = true)
+    (quota : Str → Int × Int) (used : Str → Int) (inst : Str)
+    (fcs : List (Str × FlowControlCache)) (hall : ∀ kv ∈ fcs, EntryOK schemas kv) (u : Upstream) (hu : UpOK schemas u) :
+    ∃ r, reconcileOnce quota used true inst fcs u = .ok r ∧ (∀ kv ∈ r.1, EntryOK schemas kv) ∧ UpOK schemas r.2 := by
+  unfold reconcileOnce
+  obtain ⟨fcs1, h1, hall1⟩ := mapM'_all updateGlobalCountOne (EntryOK schemas) fcs
+    (fun kv hkv => updateGlobalCountOne_ok schemas hs kv (hall kv hkv))
+  -- buildLimitConditions
+  obtain ⟨l, hl, hlall⟩ := mapM'_all (limitConditionOne used)
+    (fun r => ∀ it st, r = some (it, st) → ItemOK schemas it ∧ StatusOK schemas st) fcs1
+    (fun kv hkv => by
+      obtain ⟨r, hr, hprop⟩ := limitConditionOne_ok schemas hs used kv (hall1 kv hkv)
+      refine ⟨r, hr, ?_⟩
+      intro it st heq
+      obtain ⟨hin, hsn, hit, hst⟩ := hprop it st heq
+      have hk := hall1 kv hkv
+      constructor
+      · intro s hsm hname
+        have : s = kv.2.localConfig := namesOK_unique schemas hn s _ hsm hk.mem (by rw [hname, hin, hk.key])
+        rw [this]; exact hit
+      · intro s hsm hname
+        have : s = kv.2.localConfig := namesOK_unique schemas hn s _ hsm hk.mem (by rw [hname, hsn, hk.key])
+        rw [this]; exact Or.inr hst)
+  have hitems : ∀ it ∈ (l.filterMap id).map (·.1), ItemOK schemas it := by
+    intro it hit
+    simp only [List.mem_map, List.mem_filterMap, id] at hit
+    obtain ⟨⟨it', st'⟩, ⟨r, hr, hrs⟩, rfl⟩ := hit
+    exact (hlall r hr it' st' hrs).1
+  have hstats : ∀ st ∈ (l.filterMap id).map (·.2), StatusOK schemas st := by
+    intro st hst
+    simp only [List.mem_map, List.mem_filterMap, id] at hst
+    obtain ⟨⟨it', st'⟩, ⟨r, hr, hrs⟩, rfl⟩ := hst
+    exact (hlall r hr it' st' hrs).2
+  obtain ⟨r, hr, hans, hu'⟩ := updateRateLimitConditionStatus_ok schemas hn quota u hu inst
+    ⟨(l.filterMap id).map (·.1), (l.filterMap id).map (·.2)⟩ hitems hstats
+  obtain ⟨fcs2, h2, hall2⟩ := foldM'_ok updateFlowControlsOne (fun f => ∀ kv ∈ f, EntryOK schemas kv) r.1.items
+    (fun f hf a ha => updateFlowControlsOne_ok schemas hn hs f hf a (hans a ha)) fcs1 hall1
+  simp only [h1, buildLimitConditions, hl, hr, h2, bind, Except.bind, pure, Except.pure]
+  exact ⟨_, rfl, hall2, hu'⟩
+
+theorem reconcileLoop_ok (schemas : List Schema) (hn : namesOK schemas = true) (hs : ∀ s ∈ schemas, schemaOK s = true)
+    (quota : Str → Int × Int) (used : Str → Int) (inst : Str) (n : Nat) :
+    ∀ (st : List (Str × FlowControlCache) × Upstream), (∀ kv ∈ st.1, EntryOK schemas kv) → UpOK schemas st.2 →
+    ∃ r, reconcileLoop quota used inst n st = .ok r := by
+  induction n with
+  | zero => intro st _ _; exact ⟨st, rfl⟩
+  | succ n ih =>
+    intro st h1 h2
+    obtain ⟨r, hr, ha, hu⟩ := reconcileOnce_ok schemas hn hs quota used inst st.1 h1 st.2 h2
+    obtain ⟨r', hr'⟩ := ih r ha hu
+    exact ⟨r', by simp [reconcileLoop, hr, hr', bind, Except.bind]⟩
+
+theorem entryOf_ok (schemas : List Schema) (hs : ∀ s ∈ schemas, schemaOK s = true) (s : Schema) (h : s ∈ schemas) :
+    EntryOK schemas (entryOf s) := by
+  refine ⟨h, rfl, ?_, by intro r hr; cases hr⟩
+  have hok := hs s h
+  obtain ⟨name, strategy, exempt, m, tb, gm, gtb⟩ := s
+  cases exempt <;> cases m <;> cases tb <;> cases gm <;> cases gtb <;>
+    simp [schemaOK, shapeOf] at hok <;>
+    simp [entryOf, expectedLocal, shapeOf, guessFlowControlSchemaType]
+
+/-- a gateway in remote mode that created the cluster from a valid object, against a limiter server that handled
+    the same object: any number of reconcile periods run without error or panic -/
+theorem reconcile_after_create (env : Env) (henv : EnvOK env) (known : List Known) (c : Cluster) (hv : valid env known c = true)
+    (ht : ∀ s ∈ c.schemas, wellTyped s = true) (quota : Str → Int × Int) (used : Str → Int) (inst : Str) (n : Nat) :
+    ∃ ci u, createClusterInfo env true c = .ok ci ∧ upstreamConditionHandler emptyUpstream c = .ok u ∧
+      ∃ r, reconcileLoop quota used inst n (ci.flowcontrol.flowControls, u) = .ok r := by
+  obtain ⟨ci, hci, hfl⟩ := createClusterInfo_sizes env henv known c hv ht true
+  obtain ⟨u, hu, hitems, hinst⟩ := upstreamConditionHandler_ok emptyUpstream c
+  have hv' := hv
+  simp only [valid, usable, classes, Bool.and_eq_true, decide_eq_true_eq, List.all_eq_true] at hv'
+  have hn : namesOK c.schemas = true := hv'.1.1.1.1.2.1.2
+  have hs : ∀ s ∈ c.schemas, schemaOK s = true := hv'.1.1.1.1.2.1.1.2
+  refine ⟨ci, u, hci, hu, ?_⟩
+  apply reconcileLoop_ok c.schemas hn hs quota used inst n
+  · intro kv hkv
+    simp only [hfl, List.mem_map] at hkv
+    obtain ⟨s, hs', rfl⟩ := hkv
+    exact entryOf_ok c.schemas hs s hs'
+  · exact ⟨hitems, by intro kv hkv; rw [hinst] at hkv; cases hkv⟩
 
 end KG.Lemmas.Validate
